@@ -121,7 +121,19 @@ void run_episode(Ctx &x, const Ep &e) {
     p_error_free(a); p_error_free(b); p_error_free(c); p_error_free(p);
   } else if (k == "dir") {
     if (e.a % 3 == 0) { PError *err = NULL; PDir *d = p_dir_new("/nonexistent_dir_xyz", &err); if (!d) x.failing_call = true; else p_dir_free(d); if (err) p_error_free(err); }
-    else {
+    else if (e.a % 3 == 1) {
+      // a private directory with a regular file, a sub-directory, a dangling symlink and a symlink loop (stat() fails on the last two)
+      string base = "/tmp/vcd_" + x.uniq + "_" + std::to_string(x.seq++);
+      mkdir(base.c_str(), 0700);
+      { FILE *f = fopen((base + "/file").c_str(), "w"); if (f) fclose(f); }
+      mkdir((base + "/sub").c_str(), 0700);
+      if (symlink((base + "/nowhere").c_str(), (base + "/dangling").c_str()) != 0) {}
+      if (symlink((base + "/loop").c_str(), (base + "/loop").c_str()) != 0) {}
+      PDir *d = p_dir_new(base.c_str(), NULL);
+      if (d) { int n = 0; while (PDirEntry *en = p_dir_get_next_entry(d, NULL)) { p_dir_entry_free(en); if (++n > 20) break; } if (e.c % 2) { p_dir_rewind(d, NULL); PDirEntry *en = p_dir_get_next_entry(d, NULL); if (en) p_dir_entry_free(en); } p_dir_free(d); }
+      x.classes.insert("dir_with_unstatable_entries");
+      unlink((base + "/file").c_str()); unlink((base + "/dangling").c_str()); unlink((base + "/loop").c_str()); rmdir((base + "/sub").c_str()); rmdir(base.c_str());
+    } else {
       PDir *d = p_dir_new("/usr/include", NULL);
       if (d) { for (int i = 0; i < e.b % 12; i++) { PDirEntry *en = p_dir_get_next_entry(d, NULL); if (!en) break; p_dir_entry_free(en); } pchar *p = p_dir_get_path(d); p_free(p); if (e.c % 2) p_dir_rewind(d, NULL); p_dir_free(d); }
     }
